@@ -189,7 +189,9 @@ def _case(draw, tier):
 
 
 def strategy(tier):
-    return _case(tier)
+    from vf.props import c02_api
+
+    return st.one_of(_case(tier), _case(tier), _case(tier), c02_api.strategy(tier))
 
 
 def enumerated(tier):
